@@ -151,8 +151,14 @@ impl<'a> Arguments<'a> {
         &mut self,
         argument_name: &'static str,
     ) -> Result<u16, error::Argument> {
-        self.next_integer_or(argument_name, Ok(1))
-            .map(|value| value.max(1)) // 0 -> 1
+        // Zero AND negative values -> 1 (a negative value must not be cast to a huge count)
+        self.next_integer_with(argument_name, Ok(1), |integer| {
+            if **integer <= 0 {
+                Ok(1)
+            } else {
+                integer.as_u16()
+            }
+        })
     }
 
     /// Parse next argument as a `u16`. Use default `Result` value if no argument is given.
@@ -162,6 +168,17 @@ impl<'a> Arguments<'a> {
         &mut self,
         argument_name: &'static str,
         default: Result<u16, error::Argument>,
+    ) -> Result<u16, error::Argument> {
+        self.next_integer_with(argument_name, default, Integer::as_u16_cast)
+    }
+
+    /// Parse next argument as an integer, converted to `u16` by `convert`. Use default `Result`
+    /// value if no argument is given.
+    fn next_integer_with(
+        &mut self,
+        argument_name: &'static str,
+        default: Result<u16, error::Argument>,
+        convert: impl Fn(&Integer) -> Result<u16, error::Value>,
     ) -> Result<u16, error::Argument> {
         let Some(argument) = self.next_argument_str() else {
             return default;
@@ -173,8 +190,7 @@ impl<'a> Arguments<'a> {
             .map_err(error::Argument::invalid_value(argument_name, argument))?;
 
         if let Some(integer) = integer {
-            let integer = integer
-                .as_u16_cast()
+            let integer = convert(&integer)
                 .map_err(error::Argument::invalid_value(argument_name, argument))?;
             return Ok(integer);
         };
